@@ -234,6 +234,32 @@ def diff_digest(a: dict, b: dict) -> str | None:
 
 
 # --------------------------------------------------------------------------- interposition
+_TMP_RULE: str | None = None     # "suffix": <uuid>.new (with_suffix)   "append": <uuid>.dat.new (name + ".new")
+
+
+def tmp_rule() -> str:
+    """naming of the temporary autosave file used by the tree under test: observed by the interposer, else read off
+    the source of `save_simulation`"""
+    if _TMP_RULE is not None:
+        return _TMP_RULE
+    import inspect
+    import emu_mps.mps_backend_impl as impl_mod
+    try:
+        src = inspect.getsource(impl_mod.MPSBackendImpl.save_simulation)
+    except Exception:
+        return "append"
+    return "append" if "with_name(" in src and 'with_suffix(".new")' not in src else "suffix"
+
+
+def new_path(base) -> Path:
+    base = Path(base)
+    return base.with_suffix(".new") if tmp_rule() == "suffix" else base.with_name(base.name + ".new")
+
+
+def bak_path(base) -> Path:
+    return Path(base).with_suffix(".bak")
+
+
 class _FileProxy:
     def __init__(self, real, ip, name):
         self._real, self._ip, self._name = real, ip, name
@@ -295,14 +321,18 @@ class Interposer:
 
     # naming
     def name(self, p) -> str:
+        global _TMP_RULE
         p = Path(os.path.abspath(os.fspath(p)))      # the code under test may carry a str or a relative path
         if self.base is not None:
             b = Path(os.path.abspath(os.fspath(self.base)))
             if p == b:
                 return "base"
-            if p == b.with_suffix(".new"):
+            by_suffix, by_append = b.with_suffix(".new"), b.with_name(b.name + ".new")
+            if p in (by_suffix, by_append):
+                if by_suffix != by_append and by_suffix != b:
+                    _TMP_RULE = "suffix" if p == by_suffix else "append"    # how the code under test names its temp file
                 return "new"
-            if p == b.with_suffix(".bak"):
+            if p in (b.with_suffix(".bak"), b.with_name(b.name + ".bak")):
                 return "bak"
         return "other:" + p.name
 
@@ -504,7 +534,7 @@ def exception_kinds():
 
 
 def dir_state(base: Path) -> str:
-    return "/".join(file_state(q) for q in (base, base.with_suffix(".new"), base.with_suffix(".bak")))
+    return "/".join(file_state(q) for q in (base, new_path(base), bak_path(base)))
 
 
 def put_file(p: Path, st: str, blobs: dict):
